@@ -1,6 +1,7 @@
 package scheduler
 
 import (
+	"bytes"
 	"os/exec"
 	"sync"
 	"sync/atomic"
@@ -127,7 +128,15 @@ func (s *Scheduler) runStage(stage *Stage) error {
 		return s.Schedule(stage.Pipeline)
 	}
 
-	t := stage.Task
+	// the stage's overrides are applied to a private copy: the task itself may be shared with other
+	// stages, other pipelines and direct runs, which must not see them
+	t := *stage.Task
+	t.Log.Stdout, t.Log.Stderr = bytes.Buffer{}, bytes.Buffer{}
+
+	if stage.Dir != "" {
+		t.Dir = stage.Dir
+	}
+
 	if stage.Env != nil {
 		if t.Env == nil {
 			t.Env = stage.Env
@@ -140,11 +149,18 @@ func (s *Scheduler) runStage(stage *Stage) error {
 		if t.Variables == nil {
 			t.Variables = stage.Variables
 		} else {
-			t.Variables = t.Env.Merge(stage.Variables)
+			t.Variables = t.Variables.Merge(stage.Variables)
 		}
 	}
 
-	return s.taskRunner.Run(stage.Task)
+	err := s.taskRunner.Run(&t)
+
+	// the outcome (not the overrides) is reported on the stage's task
+	stage.Task.ExitCode, stage.Task.Errored, stage.Task.Error = t.ExitCode, t.Errored, t.Error
+	stage.Task.Skipped, stage.Task.Start, stage.Task.End = t.Skipped, t.Start, t.End
+	stage.Task.Log = t.Log
+
+	return err
 }
 
 func checkStatus(p *ExecutionGraph, stage *Stage) (ready bool) {
